@@ -168,6 +168,10 @@ class Result:
         self.violations.append((what, replay, found))
     def finish(self):
         os.makedirs(REPLAYS, exist_ok=True)
+        for old in os.listdir(REPLAYS):        # replays of earlier runs of this property are stale
+            if old.startswith(self.pid + "-"):
+                try: os.remove(os.path.join(REPLAYS, old))
+                except OSError: pass
         kf = known_findings()
         lines, nviol = [], 0
         for n, (what, replay, found) in enumerate(self.violations):
